@@ -1122,6 +1122,12 @@ func (p *Printer) elemJoin(elems []*ArrayElem, last []Comment) {
 		}
 		if p.wroteIndex(el.Index) {
 			p.w.WriteByte('=')
+			if el.Value != nil {
+				// As with assignments, the value must directly follow "[index]=",
+				// without a space or an escaped newline.
+				p.wantSpace = spaceNotRequired
+				p.advanceLine(el.Value.Pos().Line())
+			}
 		}
 		if el.Value != nil {
 			p.word(el.Value)
